@@ -276,10 +276,14 @@ func (t CollectionPath) Of(i Item) Item {
 			return nil
 		})
 	}
-	OnObject(i, func(o *Object) error {
-		it = t.ofObject(o)
-		return nil
-	})
+	if OfObject.Contains(t) {
+		// NOTE: only the collections an object itself can carry are looked up on the object, otherwise the
+		// explicit inbox/outbox/... of an actor found above was overwritten by the built IRI
+		OnObject(i, func(o *Object) error {
+			it = t.ofObject(o)
+			return nil
+		})
+	}
 	return it
 }
 
